@@ -151,6 +151,8 @@ _cli.ssl = _SslShim
 def _pki(name):
     def f(**kw):
         REC['pki'].append((name, kw))
+        if OUTCOME.get('pki_fail') == name:
+            return False        # openssl helper failed
         return True
     return f
 
@@ -206,6 +208,14 @@ S_OUT = ['ok', 'verify', 'sslerror']
 C_OUT = ['ok', 'verify', 'sslerror', 'eof', 'pipe']
 
 
+def us_out_after_failure(env):
+    for a, s_ in env.connects:
+        inner = getattr(s_, '_inner', s_)
+        if not isinstance(inner, BaseException) and inner.out != b'':
+            return True
+    return False
+
+
 def intercept(h0: int, h1: int, so: int, co: int, cache: int, di: int, d0: int) -> bool:
     """
     pre: 97 <= h0 <= 122 and 97 <= h1 <= 122
@@ -223,11 +233,17 @@ def intercept(h0: int, h1: int, so: int, co: int, cache: int, di: int, d0: int) 
         if cache == k:
             cache = k
             break
-    OUTCOME.update({'server': S_OUT[so], 'client': C_OUT[co], 'cache': cache, 'do_intercept': bool(di)})
+    OUTCOME.update({'server': S_OUT[so], 'client': C_OUT[co], 'cache': cache, 'do_intercept': bool(di), 'pki_fail': CFG.get('pki_fail')})
     REC['ctx'][:] = []
     REC['pki'][:] = []
     REC['isfile'][:] = []
-    host = B(h0, h1) + b'.example'
+    hk_ = CFG.get('hostkind', 'name')
+    if hk_ == 'name':
+        host = B(h0, h1) + b'.example'
+    elif hk_ == 'v4':
+        host = b'10.0.0.' + B(48 + (h0 % 10))
+    else:
+        host = b'[2001:db8::' + B(48 + (h0 % 10)) + b']'
     with concrete():
         env = envkit.new_env()
         env.upstream_factory = lambda addr: FakeTcpSocket(env.sock('upstream'))
@@ -239,7 +255,16 @@ def intercept(h0: int, h1: int, so: int, co: int, cache: int, di: int, d0: int) 
         import os, traceback
         if os.environ.get('VERIF_DEBUG_FAIL'):
             traceback.print_exc()
+        if CFG.get('pki_fail'):
+            # a failed certificate generation may end this connection in any way, but must not wedge the process-wide lock
+            if PS.HttpProxyPlugin.lock.locked():
+                return fail('certificate-generation lock still held after a failed generation: the next intercepted CONNECT blocks forever')
+            if us_out_after_failure(env):
+                return fail('bytes sent upstream although certificate generation failed')
+            return ok()
         return fail('exception left handle_events', exc=repr(e))
+    if CFG.get('pki_fail') and PS.HttpProxyPlugin.lock.locked():
+        return fail('certificate-generation lock still held after a failed generation: the next intercepted CONNECT blocks forever')
     closing = bool(td) or h.must_flush_before_shutdown
     if len(env.connects) != 1:
         return fail('not exactly one upstream connection')
@@ -261,9 +286,14 @@ def intercept(h0: int, h1: int, so: int, co: int, cache: int, di: int, d0: int) 
         run(h.handle_events([cs.fd], []))
         if envkit.pending(h.plugin.upstream) != payload:
             return fail('opt-out tunnel does not relay client bytes verbatim', got=repr(envkit.pending(h.plugin.upstream)))
-        us.inq.append(payload + b'!')
-        run(h.handle_events([us.fd], []))
-        if cs.out + cat(h.work.buffer) != ACK + payload + b'!':
+        # opaque bytes that are not HTTP-shaped (a TLS record containing CR LF): must be relayed, never parsed
+        back = b'\x16\x03\x03' + B(d0) + b'\r\nxy\r\n\r\n' + B(d0)
+        us.inq.append(back)
+        try:
+            td2 = run(h.handle_events([us.fd], []))
+        except Exception as e:
+            return fail('opt-out tunnel: upstream bytes made the proxy raise (they were parsed instead of relayed)', exc=repr(e))
+        if td2 or cs.out + cat(h.work.buffer) != ACK + back:
             return fail('opt-out tunnel does not relay upstream bytes verbatim')
         return ok()
     # upstream handshake policy
@@ -358,12 +388,20 @@ def obligations(tier):
                     obs.append({'name': 'intercept.%s.server_%s.client_%s.%s' % ('insecure' if insecure else 'verify', S_OUT[so], C_OUT[co],
                                                                                'intercept' if di else 'optout'), 'fn': 'intercept',
                                 'cfg': {'insecure': insecure, 'so': so, 'co': co, 'di': di}, 'timeout': 400})
+    for hkind in ('v4', 'v6'):
+        for insecure in (False, True):
+            for so in (0, 1):
+                obs.append({'name': 'intercept.%s.%s.server_%s' % (hkind, 'insecure' if insecure else 'verify', S_OUT[so]), 'fn': 'intercept',
+                            'cfg': {'insecure': insecure, 'so': so, 'co': 0, 'di': 1, 'hostkind': hkind}, 'timeout': 400})
+    for step in ('gen_public_key', 'gen_csr', 'sign_csr'):
+        obs.append({'name': 'intercept.pki_fail.%s' % step, 'fn': 'intercept',
+                    'cfg': {'insecure': False, 'so': 0, 'co': 0, 'di': 1, 'pki_fail': step}, 'timeout': 400})
     return obs
 
 
 META = {
     'bounds': {
-        'quick': 'CONNECT host with 2 symbolic letters; upstream handshake outcome {ok, certificate verification error, other SSL error}; '
+        'quick': 'CONNECT host: name with 2 symbolic letters, IPv4 and bracketed IPv6 literals with a symbolic digit; a failing openssl helper at each of the 3 generation steps (lock must be released); upstream handshake outcome {ok, certificate verification error, other SSL error}; '
                  'client-side handshake outcome {ok, verification error, SSL error, EOF, broken pipe}; --insecure-tls-interception on/off; a '
                  'plugin\'s do_intercept on/off; certificate cache state symbolic (8 combinations of leaf/public key/CSR present); one symbolic '
                  'payload byte',
